@@ -52,10 +52,20 @@ func c09CLI(cfg Config, rep *Report, rng *rand.Rand) {
 			p := filepath.Join(storeDir, id.String()[:4], id.String()+".cacnk")
 			switch it % 3 {
 			case 1:
-				b, _ := os.ReadFile(p)
-				if len(b) > 0 {
+				// whether the object is damaged is decided by what it decodes to: a flipped bit in a zstd frame header can
+				// leave the chunk intact (false alarm of the seed sweep, seed 6)
+				orig, _ := os.ReadFile(p)
+				stillGood := true
+				for try := 0; try < 20 && stillGood && len(orig) > 0; try++ {
+					b := append([]byte{}, orig...)
 					b[rng.Intn(len(b))] ^= 0x40
 					os.WriteFile(p, b, 0644)
+					_, gerr := st.GetChunk(id)
+					stillGood = gerr == nil
+				}
+				if stillGood {
+					os.WriteFile(p, orig, 0644)
+					damaged = -1
 				}
 			default:
 				os.Remove(p)
@@ -67,6 +77,11 @@ func c09CLI(cfg Config, rep *Report, rng *rand.Rand) {
 				return false
 			}
 			bad := idx.Chunks[damaged].ID
+			// the reader produces the all-zero chunk of maximum size itself and never asks the store for it: damaging
+			// that object cannot (and need not) make cat fail (false alarm of the seed sweep, seed 6)
+			if bad == desync.NewNullChunk(8192).ID {
+				return false
+			}
 			for _, c := range idx.Chunks {
 				if c.ID == bad && int(c.Start) < off+ln && off < int(c.Start+c.Size) {
 					return true
